@@ -1,7 +1,7 @@
 (* C03, part 3: the blocking rules (poll timeout), the clock across io_poll,
    and uv_stop. *)
 From UV Require Import Lib.Base Model.Heap Model.Timer Model.LoopCore
-  Proofs.TimerProofs Proofs.C03Base Proofs.C03Order Proofs.C03Step.
+  Proofs.TimerProofs Proofs.C03Base Proofs.C03Order Proofs.C03Step Proofs.UvRunAlt.
 
 Local Open Scope Z_scope.
 
@@ -58,7 +58,7 @@ Lemma uv_run_time beh fuel s mode : ClockInv s ->
   ClockInv s' /\ now (ts s) <= now (ts s') /\ clock s <= clock s' /\
   (cbcount s <= cbcount s')%nat /\ metrics s' = metrics s.
 Proof.
-  intros CI. cbv zeta. unfold uv_run.
+  intros CI. cbv zeta. rewrite uv_run_alt_eq. unfold uv_run_alt.
   set (r := loop_alive s).
   set (s0 := if r then s else update_time s).
   assert (S0 : Step beh s s0).
@@ -376,9 +376,10 @@ Qed.
 (* ================= uv_stop ================= *)
 Theorem uv_run_clears_stop fuel s beh mode : stop_flag (fst (uv_run fuel s beh mode)) = false.
 Proof.
-  unfold uv_run. cbv zeta.
-  destruct (if _ && _ && _ then _ else _) as [s1 e0].
-  destruct (if _ && _ then _ else _) as [[s2 e1] r']. reflexivity.
+  rewrite uv_run_alt_eq. unfold uv_run_alt. cbv zeta.
+  destruct (if Nat.eqb mode 0 && loop_alive s && negb (stop_flag (if loop_alive s then s else update_time s))
+            then l_run_timers _ beh else _) as [s1 e0].
+  destruct (if loop_alive s && negb (stop_flag s1) then _ else _) as [[s2 e1] r']. reflexivity.
 Qed.
 
 (* stop_flag set at the end of a DEFAULT iteration: no further iteration *)
@@ -431,7 +432,7 @@ Theorem uv_run_stopped fuel s beh mode :
   uv_run fuel s beh mode =
   (set_stop (if loop_alive s then s else update_time s) false, [VRun (loop_alive s)]).
 Proof.
-  intros Hs. unfold uv_run. cbv zeta.
+  intros Hs. rewrite uv_run_alt_eq. unfold uv_run_alt. cbv zeta.
   assert (H0 : stop_flag (if loop_alive s then s else update_time s) = true).
   { destruct (loop_alive s); [exact Hs|]. unfold update_time. lcbn. exact Hs. }
   rewrite H0. cbn [negb]. rewrite !andb_false_r. rewrite H0. cbn [negb].
@@ -446,7 +447,7 @@ Theorem uv_run_enters fuel s beh mode s' evs :
   exists s1 e1, iteration s beh mode = (s1, e1) /\
                 s' = set_stop s1 false /\ evs = e1 ++ [VRun (loop_alive s1)].
 Proof.
-  intros Hs Ha Hm E. unfold uv_run in E. cbv zeta in E. rewrite Ha in E.
+  intros Hs Ha Hm E. rewrite uv_run_alt_eq in E. unfold uv_run_alt in E. cbv zeta in E. rewrite Ha in E.
   destruct (Nat.eqb_spec mode 0) as [|_]; [contradiction|]. cbn [andb] in E.
   rewrite Hs in E. cbn [negb andb] in E.
   destruct (iteration s beh mode) as [s1 e1] eqn:E1.
@@ -458,11 +459,11 @@ Theorem uv_run_enters_default fuel s beh s' evs :
   stop_flag s = false -> loop_alive s = true ->
   uv_run (S fuel) s beh 0 = (s', evs) ->
   exists st e0, l_run_timers (update_time s) beh = (st, e0) /\
-    (stop_flag st = true -> s' = set_stop st false /\ evs = e0 ++ [VRun true]) /\
+    (stop_flag st = true -> s' = set_stop st false /\ evs = e0 ++ [VRun (loop_alive st)]) /\
     (stop_flag st = false ->
        exists s1 e1 rest, iteration st beh 0 = (s1, e1) /\ evs = e0 ++ e1 ++ rest).
 Proof.
-  intros Hs Ha E. unfold uv_run in E. cbv zeta in E. rewrite Ha in E.
+  intros Hs Ha E. rewrite uv_run_alt_eq in E. unfold uv_run_alt in E. cbv zeta in E. rewrite Ha in E.
   cbn [Nat.eqb andb] in E. rewrite Hs in E. cbn [negb] in E.
   destruct (l_run_timers (update_time s) beh) as [st e0] eqn:E0.
   exists st, e0. split; [reflexivity|]. split.
